@@ -124,34 +124,53 @@ def run_case(c, F, femio):
         r['eigh2'] = take_eigh()
         r['c'] = exa(cc)
     elif k == 'lte':
+        # c['a'][k] is the tensor of element c['var_ids'][k]; the mesh stores its
+        # elements in the order c['ids'] (may differ from the variable's order)
         a = arr(c['a'])
         n = len(a)
-        ids = np.array(c['ids'])
+        ids = np.array(c['ids'], dtype=np.int64)
+        vids = np.array(c.get('var_ids', c['ids']), dtype=np.int64)
         nn = 4 + n
         fd = femio.FEMData(
             nodes=femio.FEMAttribute('NODE', np.arange(1, nn + 1),
                                      np.arange(3 * nn, dtype=float).reshape(nn, 3) ** 2 % 7),
             elements=femio.FEMElementalAttribute('ELEMENT', {'tet': femio.FEMAttribute(
                 'tet', ids, np.array([[i + 1, i + 2, i + 3, i + 4] for i in range(n)]))}))
+
+        def attr(name):
+            return {'ids': [int(i) for i in fd.elemental_data.get_attribute_ids(name)],
+                    'rows': exa(fd.elemental_data.get_attribute_data(name))}
         s0 = snapshot(a)
-        fd.elemental_data.update_data(ids, {c['name_in']: a}, allow_overwrite=True)
-        stored = fd.elemental_data.get_attribute_data('lte_full')
-        s_st = snapshot(stored)
-        fd.convert_lte_global2local()
-        r['a_unchanged'] = snapshot(a) == s0 and \
-            snapshot(fd.elemental_data.get_attribute_data('lte_full')) == s_st
-        r['eigh'] = take_eigh()
-        lte = fd.elemental_data.get_attribute_data('lte')
-        orient = fd.elemental_data.get_attribute_data('orient')
-        r['lte'], r['orient'] = exa(lte), exa(orient)
-        sl, so = snapshot(lte), snapshot(orient)
-        if c.get('pop', True):
+        r['element_ids'] = [int(i) for i in fd.elements.ids]
+        if c.get('l2g_only'):
+            oids = np.array(c['orient_ids'], dtype=np.int64)
+            fd.elemental_data.update_data(vids, {'lte': arr(c['lte'])}, allow_overwrite=True)
+            fd.elemental_data.update_data(oids, {'orient': arr(c['orient'])}, allow_overwrite=True)
+            r['a_unchanged'] = True
+            r['eigh'] = []
+        else:
+            fd.elemental_data.update_data(vids, {c['name_in']: a}, allow_overwrite=True)
+            r['full_before'] = attr('lte_full')
+            s_st = snapshot(fd.elemental_data.get_attribute_data('lte_full'))
+            fd.convert_lte_global2local()
+            r['a_unchanged'] = snapshot(a) == s0 and \
+                snapshot(fd.elemental_data.get_attribute_data('lte_full')) == s_st
+            r['eigh'] = take_eigh()
+            if c.get('repeat'):
+                fd.convert_lte_global2local()        # the same conversion twice
+                take_eigh()
+        r['lte'], r['orient'] = attr('lte'), attr('orient')
+        sl = snapshot(fd.elemental_data.get_attribute_data('lte'))
+        so = snapshot(fd.elemental_data.get_attribute_data('orient'))
+        if c.get('pop', True) and not c.get('l2g_only'):
             fd.elemental_data.pop('lte_full')
         fd.convert_lte_local2global()
+        if c.get('repeat'):
+            fd.convert_lte_local2global()
         r['local_unchanged'] = snapshot(fd.elemental_data.get_attribute_data('lte')) == sl and \
             snapshot(fd.elemental_data.get_attribute_data('orient')) == so
         r['eigh_after'] = take_eigh()
-        r['lte_full'] = exa(fd.elemental_data.get_attribute_data('lte_full'))
+        r['lte_full'] = attr('lte_full')
         r['keys'] = sorted(fd.elemental_data.keys())
     elif k == 'align':
         import scipy.sparse as sp
